@@ -3,6 +3,7 @@ import Toodee.Spec.Inv
 import Toodee.Proofs.SerdeLemmas
 import Toodee.Properties.C10
 import Toodee.Properties.C20
+import Toodee.Proofs.ConvLemmas
 /-
   C18 — Serialisation round-trips every array.
 
@@ -45,7 +46,30 @@ theorem C18_roundtrip_view (enc : α → JVal) (dec : JVal → Option α) (hcode
 theorem C18_roundtrip_view_cells (m : Mode) (cap : Nat) (enc : α → JVal) (dec : JVal → Option α) (hcodec : ∀ x, dec (enc x) = some x)
     (v : VW) (buf : List α) (h : v.Inv buf.length) (hcap : buf.length ≤ cap) :
     ∃ doc t, v.serialize m enc buf = .ok doc ∧ v.toOwned m cap buf = .ok t ∧ deserialize dec doc = .ok t := by
-  sorry
+  obtain ⟨it, hrows, _, hitv, _, _, _⟩ := VW.rows_WF m v buf.length h
+  obtain ⟨it', hrows', hWF, habs, _, _⟩ := C10_cells_view m v buf.length h
+  rw [hrows] at hrows'
+  cases hrows'
+  obtain ⟨t, hown, hinv, hC, hR, hdata, _⟩ := C20_from_view m cap v buf h hcap
+  have harea := h.area_le
+  -- enough fuel: there are at most `len` rows
+  have hfuel : v.numRows < it.v.len + 3 := by
+    rw [hitv]
+    by_cases hR0 : v.numRows = 0
+    · omega
+    · have hC0 : 0 < v.numCols := by have := h.zero; omega
+      have : 1 * v.numRows ≤ v.numCols * v.numRows := Nat.mul_le_mul_right _ hC0
+      omega
+  have hcol := C10_fold (Flat.new it) v.numRows buf.length hWF (it.v.len + 3) hfuel
+  rw [habs] at hcol
+  have hcells : ((((List.range v.numRows).map fun r => (List.range v.numCols).map fun c => v.pos c r).flatten).filterMap
+      fun p => buf[p]?) = t.data := by
+    rw [hdata]; exact filterMap_cells_flatten buf v.numRows v.numCols v.pos
+  refine ⟨serializeView enc v.numCols v.numRows t.data, t, ?_, hown, ?_⟩
+  · simp only [VW.serialize, hrows, ok_bind, hcol, hcells, pure_eq]
+  · have hlen : t.data.length = v.numCols * v.numRows := by rw [hinv.len, hC, hR]
+    have hw : v.numCols * v.numRows < WORD := by rw [← hlen]; exact hinv.word
+    rw [C18_roundtrip_view enc dec hcodec v.numCols v.numRows t.data hlen h.zero hw, ← hC, ← hR]
 
 /-- the element codec used by the non-vacuity examples: natural-number literals -/
 private def encNat : Nat → JVal := JVal.num
@@ -65,5 +89,13 @@ example : deserialize decNat (serializeView encNat 3 2 [1, 2, 3, 4, 5, 6]) = .ok
 example : deserialize decNat (serializeView encNat 0 0 []) = .ok ⟨[], 0, 0⟩ := by
   simp [serializeView, deserialize, visitLoop, decUsize, decVec, omul, TD.fromVec, TD.zeroRuleOk,
     cmul, WORD]
+/-- non-vacuity: serialising a 2x2 window (stride 3, offset 1) of an 8-cell buffer as the crate does it (concrete
+    computation), and `C18_roundtrip_view_cells` applied to it -/
+example : VW.serialize .debug encNat ⟨⟨1, 5⟩, 2, 2, 3⟩ [0, 1, 2, 3, 4, 5, 6, 7] =
+    .ok (serializeView encNat 2 2 [1, 2, 4, 5]) := by rfl
+example : ∃ doc t, VW.serialize .release encNat ⟨⟨1, 5⟩, 2, 2, 3⟩ [0, 1, 2, 3, 4, 5, 6, 7] = .ok doc ∧
+    VW.toOwned .release 100 ⟨⟨1, 5⟩, 2, 2, 3⟩ [0, 1, 2, 3, 4, 5, 6, 7] = .ok t ∧ deserialize decNat doc = .ok t :=
+  C18_roundtrip_view_cells .release 100 encNat decNat (fun _ => rfl) ⟨⟨1, 5⟩, 2, 2, 3⟩ [0, 1, 2, 3, 4, 5, 6, 7]
+    ⟨by decide, by decide, by decide, by decide, by decide, by decide⟩ (by decide)
 
 end Toodee
